@@ -245,6 +245,33 @@ class Verifier:
             # invariant of the payload only matters when present
             pass
 
+    def reachable_ids(self, v, acc):
+        if id(v) in acc:
+            return acc
+        if isinstance(v, SObj):
+            acc.add(id(v))
+            for x in v.fields.values():
+                self.reachable_ids(x, acc)
+        elif isinstance(v, (SList,)):
+            acc.add(id(v))
+            for x in v.items:
+                self.reachable_ids(x, acc)
+        elif isinstance(v, SSorted):
+            acc.add(id(v))
+            self.reachable_ids(v.inner, acc)
+        elif isinstance(v, SDict):
+            acc.add(id(v))
+            for x in v.d.values():
+                self.reachable_ids(x, acc)
+        elif isinstance(v, (SymList, SymMap, SymSet, SSet)):
+            acc.add(id(v))
+        elif isinstance(v, tuple):
+            for x in v:
+                self.reachable_ids(x, acc)
+        elif isinstance(v, SOpt):
+            self.reachable_ids(v.val, acc)
+        return acc
+
     def check_invariants(self, m, v, label, seen=None):
         if seen is None:
             seen = set()
@@ -256,6 +283,14 @@ class Verifier:
                 self.check_invariants(m, x, label, seen)
             decl = S.CLASSES.get(v.declname) if v.declname else None
             if decl is not None and decl.inv is not None:
+                written = getattr(m, "body_writes", None)
+                if written is not None and v.owner is None:
+                    # nothing reachable from this object was written on this path: the invariant
+                    # assumed at entry still holds (frame argument, no solver needed)
+                    reach = self.reachable_ids(v, set())
+                    if not (reach & written) and id(v) in getattr(m, "entry_objs", ()):
+                        m.stats["inv_skipped"] = m.stats.get("inv_skipped", 0) + 1
+                        return
                 fn = self.registry.spec_function(decl.inv if isinstance(decl.inv, str) else decl.inv.__name__)
                 m.in_spec += 1
                 try:
@@ -272,7 +307,7 @@ class Verifier:
             for x in v.d.values():
                 self.check_invariants(m, x, label, seen)
 
-    def run(self, ccls, shape=None, prop=None):
+    def run(self, ccls, shape=None, prop=None, mode=None):
         """symbolically execute the target of contract ``ccls``; returns FnResult
         with undischarged obligations"""
         t0 = time.time()
@@ -282,7 +317,7 @@ class Verifier:
         m = Machine(self.repo, self.registry)
         m.current_contract = ccls
         m.skip_contract_for = {ccls.key} | set(getattr(ccls, "inline", ()))
-        m.modular = True
+        m.modular = (mode or ("unbounded" if shape is None else "bounded")) == "unbounded"
         label = (prop + "/" if prop else "") + ccls.target.split(":")[1]
         if getattr(ccls, "label", None):
             label = (prop + "/" if prop else "") + ccls.label
@@ -364,10 +399,16 @@ class Verifier:
                     for p in argnames[len(call_args) :]:
                         if p in params:
                             kwargs[p] = ns[p]
+                    m.writes = []
+                    m.entry_objs = set()
+                    for v in ns.values():
+                        self.reachable_ids(v, m.entry_objs)
                     result = m.call_function(f, call_args, kwargs, None)
                     outcome = "normal"
                 except PyRaise as ex:
                     outcome = ex
+                m.body_writes = set(id(w) for w in (m.writes or []))
+                m.writes = None
                 # 3. postconditions
                 if outcome == "normal":
                     res.normal_paths += 1
@@ -471,18 +512,34 @@ def cvc5_check(solver, timeout_ms):
             pass
 
 
-def discharge(res, timeout_ms=20000):
-    """solve every obligation of a FnResult; identical goals on identical pcs are merged"""
+def discharge(res, timeout_ms=20000, unit_budget_s=None):
+    """solve every obligation of a FnResult.  Once a clause is refuted on one path the
+    remaining paths of the same clause are skipped (the verdict cannot improve); after two
+    ``unknown`` answers for a clause, or when the unit's time budget is used up, the rest is
+    reported unknown without calling the solver."""
+    t0 = time.time()
+    refuted_names = set()
+    unknown_ct = {}
+    if unit_budget_s is None:
+        unit_budget_s = 12 * timeout_ms / 1000.0
     for ob in res.obligations:
+        ob.witness = None
+        if ob.name in refuted_names:
+            ob.status, ob.time, ob.backend = "skipped", 0.0, "skipped"
+            continue
+        if unknown_ct.get(ob.name, 0) >= 2 or (time.time() - t0) > unit_budget_s:
+            ob.status, ob.time, ob.backend = "unknown", 0.0, "budget"
+            continue
         st, model, dt, be = solve(ob.pc, ob.goal, timeout_ms)
         ob.status, ob.time, ob.backend = st, dt, be
-        if st == "refuted" and model is not None:
-            m = ob.machine
-            try:
-                ob.witness = decode(m, m.input_ns, model)
-            except Exception as e:  # decoding must never turn into a verdict
-                ob.witness = {"__decode_error__": repr(e)}
-            ob.model_text = None
-        else:
-            ob.witness = None
+        if st == "unknown":
+            unknown_ct[ob.name] = unknown_ct.get(ob.name, 0) + 1
+        if st == "refuted":
+            refuted_names.add(ob.name)
+            if model is not None:
+                m = ob.machine
+                try:
+                    ob.witness = decode(m, m.input_ns, model)
+                except Exception as e:  # decoding must never turn into a verdict
+                    ob.witness = {"__decode_error__": repr(e)}
     return res
